@@ -970,6 +970,32 @@ Proof.
     destruct (l_hook lg); exact Hmain.
 Qed.
 
+(* Core.Check(ent, nil) [+ After] + Write without a Logger: reset() on Get is all that stands between
+   the last user's ErrorOutput / hook / cores / dirty flag and this entry *)
+Lemma check_call_ok cores hook ent fs ow s (Q : list id -> list event -> store -> Prop) :
+  sok ow s ->
+  (forall ow', sok ow' s -> Q ow' (p_check cores hook ent fs) s) ->
+  msafe (check_call cores hook ent fs) ow s Q.
+Proof.
+  intros Hok HQ. unfold check_call.
+  assert (Hmain : msafe
+    (ce0 <- get_checked_entry ;;
+     ce_write {| ce_ent := ent; ce_errout := ce_errout ce0; ce_dirty := ce_dirty ce0;
+                 ce_after := (match hook with Some h => Some h | None => ce_after ce0 end);
+                 ce_cores := ce_cores ce0 ++ cores |} fs) ow s Q).
+  { apply msafe_bind. unfold get_checked_entry. apply msafe_bind. apply getp_ok; [reflexivity|]. intros ce _.
+    apply msafe_ret. cbn [ce_reset ce_errout ce_dirty ce_cores ce_after app].
+    apply ce_write_ok; [reflexivity|exact Hok|]. intros ow1 Hok1.
+    unfold p_ce_events. cbn [ce_cores ce_ent ce_errout ce_after].
+    rewrite andb_false_r. cbn [app].
+    specialize (HQ ow1 Hok1). unfold p_check in HQ. destruct hook; exact HQ. }
+  destruct cores as [|co cores'].
+  - destruct hook as [h|].
+    + exact Hmain.
+    + apply msafe_ret. apply HQ. exact Hok.
+  - exact Hmain.
+Qed.
+
 (* ------------------------------------------------------------------ *)
 (* every operation computes its specification under every adversary   *)
 (* ------------------------------------------------------------------ *)
@@ -978,7 +1004,7 @@ Proof. split; [constructor|intros x []]. Qed.
 
 Theorem op_safe (o : op) (ow : list id) : safe (op_prog o) ow (fun _ r => r = op_spec o).
 Proof.
-  destruct o as [co ent fs|e fs|lg ent cs fs|cs]; cbn [op_prog op_spec]; unfold run_m.
+  destruct o as [co ent fs|e fs|lg ent cs fs|cs|cores hook ent fs]; cbn [op_prog op_spec]; unfold run_m.
   - eapply safe_bind.
     + apply (core_write_ok co ent fs ow [] (fun _ b _ => b = p_core_line co ent fs)); [apply sok_nil|]. reflexivity.
     + intros ow' [b s'] Hb. cbn [fst snd safe] in *. subst b. reflexivity.
@@ -990,6 +1016,9 @@ Proof.
     + intros ow' [b s'] Hb. cbn [fst snd safe] in *. subst b. reflexivity.
   - eapply safe_bind.
     + apply (take_stack_ok cs ow [] (fun _ b _ => b = p_take cs)); [apply sok_nil|]. reflexivity.
+    + intros ow' [b s'] Hb. cbn [fst snd safe] in *. subst b. reflexivity.
+  - eapply safe_bind.
+    + apply (check_call_ok cores hook ent fs ow [] (fun _ b _ => b = p_check cores hook ent fs)); [apply sok_nil|]. reflexivity.
     + intros ow' [b s'] Hb. cbn [fst snd safe] in *. subst b. reflexivity.
 Qed.
 
@@ -1207,6 +1236,26 @@ Proof.
   destruct (exec_safe (op_prog o) [] (fun _ r => r = op_spec o) adv1 sh1 all1 [] (op_safe o [])) as [sh2 [adv2 [r [ow2 [He [Hr _]]]]]].
   { cbn [app]. rewrite app_nil_r. exact Hi1. }
   rewrite He. cbn [snd]. subst r. reflexivity.
+Qed.
+
+(* a bare Check + Write makes nothing observable but the sink writes of the cores it was handed:
+   no error output of an earlier Logger, no earlier hook, no re-use diagnostic - after any history *)
+Lemma p_write_cores_sinks cores : forall n ent fs,
+  Forall (fun ev => exists k b, ev = SinkWrite k b) (fst (p_write_cores n cores ent fs)).
+Proof.
+  induction cores as [|co r IH]; intros n ent fs; cbn [p_write_cores fst].
+  - constructor.
+  - apply Forall_app. split; [|apply IH].
+    destruct (co_fail co); [constructor|]. constructor; [|constructor]. eexists. eexists. reflexivity.
+Qed.
+
+Theorem bare_check_silent h adv cores ent fs :
+  exists evs, observe h adv (OCheck cores None ent fs) = inl (OutEvents evs) /\
+              Forall (fun ev => exists k b, ev = SinkWrite k b) evs.
+Proof.
+  exists (p_check cores None ent fs). split.
+  - apply (observe_spec h adv (OCheck cores None ent fs)).
+  - unfold p_check. rewrite app_nil_r. apply p_write_cores_sinks.
 Qed.
 
 Theorem history_independent h1 h2 adv1 adv2 o : observe h1 adv1 o = observe h2 adv2 o.
